@@ -23,10 +23,10 @@ constexpr int NWAT = 3;   // deathwatched objects
 constexpr int NTRC = 3;   // tracer nesting depth
 constexpr int INF = 255;  // upper bound "unbounded"
 
-enum Fn : int8_t { F1 = 0, G1 = 1, F2 = 2, V1 = 3, R1 = 4, CR1 = 5, NFN = 6 };
+enum Fn : int8_t { F1 = 0, G1 = 1, F2 = 2, V1 = 3, R1 = 4, CR1 = 5, SV1 = 6, NFN = 7 };
 enum MK : int8_t { MK_ANY = 0, MK_EQ, MK_LT, MK_VAL, MK_NE, MK_GE };
 enum TimesForm : int8_t { TF_RT = 0, TF_DEFAULT, TF_N, TF_LH, TF_ATLEAST, TF_ATMOST, TF_ALLOW, TF_FORBID };
-enum Act : int8_t { ACT_RET = 0, ACT_THROW_INT, ACT_THROW_STD, ACT_NONE, ACT_RETREF, ACT_RETCAP /* RETURN(local captured by copy) from a function returning const int& */ };
+enum Act : int8_t { ACT_RET = 0, ACT_THROW_INT, ACT_THROW_STD, ACT_NONE, ACT_RETREF, ACT_RETCAP /* RETURN(local captured by copy) from a function returning const int& */, ACT_RETSTR /* std::string returned by value */ };
 enum MockKind : int8_t { MOCK_M = 0, MOCK_MV = 1, MOCK_WATCHED = 2 };
 
 // compile-time shape of an expectation statement (one template instantiation)
@@ -54,6 +54,7 @@ enum OpKind : uint8_t {
   OP_POP_TRACER,
   OP_SET_REPORTER, // k1 = generation to install; k2: 1 = pair form, 0 = single-argument form
   OP_ASSIGN_SEQ,   // s1: a fresh sequence object is move-assigned over the live one (the old one's pending expectations are reported as at destruction)
+  OP_ARM_OK,       // the OK reporter is user code: on the next OK report it installs reporter generation k1 (pair form) from inside the callback
   OP_ARM_REPORTER, // the reporter is user code: on the next non-fatal report it destroys mock object obj (a "tear the fixture down on the first violation" policy)
   OP_NKINDS
 };
@@ -138,6 +139,7 @@ struct MState {
   uint8_t ntracer;
   uint8_t tracer_kind[NTRC];
   uint8_t repgen, okgen;
+  uint8_t armed_ok; // 0 = none, 1 + generation the OK reporter installs on the next OK report
   uint8_t armed;   // 0 = none, 1 + obj: mock object the reporter destroys on the next non-fatal report
   uint16_t clock;
 };
